@@ -39,7 +39,7 @@ def enum_check(text, collect_errors, M, case, accepted):
     M.count("enum_compared")
     if st != "ok":
         M.violation("C14.enum", {"what": "exception escaped GherkinEvents.enum", **envs}, case,
-                    mechanism=observe.F1 if envs.get("origin", "").startswith("token_scanner") else None)
+                    mechanism=observe.f1_from_opened(text, opened))
         return
     if accepted:
         if any("parseError" in e for e in envs):
@@ -50,11 +50,11 @@ def enum_check(text, collect_errors, M, case, accepted):
         M.violation("C14.enum", {"what": "rejected source: envelopes are not exactly one parseError per error (uri, location, message)",
                                  "got": short(envs, 300), "want": short(want, 300)}, case)
     # the same source through a stream whose parser stops at the first error: exactly the first error
-    st2, envs2, _, _ = observe.enum_observed(text, uri="features/t.feature", stop=True)
+    st2, envs2, opened2, _ = observe.enum_observed(text, uri="features/t.feature", stop=True)
     M.count("enum_compared")
     if st2 != "ok":
         M.violation("C14.enum", {"what": "exception escaped GherkinEvents.enum (stop-at-first-error parser)", **envs2}, case,
-                    mechanism=observe.F1 if envs2.get("origin", "").startswith("token_scanner") else None)
+                    mechanism=observe.f1_from_opened(text, opened2))
     elif envs2 != want[:1]:
         M.violation("C14.enum", {"what": "stop-at-first-error stream does not yield exactly the first error of collecting mode",
                                  "got": short(envs2, 300), "want": short(want[:1], 300)}, case)
